@@ -155,7 +155,9 @@ func verifC13_dial() {
 	status := vInt("status", 100, 599)
 	goodAccept := vChoose("goodAccept", 2) == 1
 	respProto := []string{"", "chat", "other"}[vChoose("respProto", 3)]
-	respExt := []string{"", "permessage-deflate", "permessage-deflate; server_no_context_takeover", "x-unknown"}[vChoose("respExt", 4)]
+	respExt := []string{"", "permessage-deflate", "permessage-deflate; server_no_context_takeover", "x-unknown",
+		// a parameter the client did not offer and cannot honour (its compressor's window is fixed)
+		"permessage-deflate; client_max_window_bits=10"}[vChoose("respExt", 5)]
 	body := &vBody{vNewTransport(nil)}
 	body.endMode = vEndBlock
 	rt := &vRoundTripper{}
@@ -177,6 +179,7 @@ func verifC13_dial() {
 		return &http.Response{StatusCode: status, Header: h, Body: body}, nil
 	}
 	opts.HTTPClient = &http.Client{Transport: rt}
+	callerKeys := len(opts.HTTPHeader)
 	c, resp, err := dial(context.Background(), "ws://example.com/socket?x=1", opts, nil)
 	vReach("C13.dial.returned")
 	vAssert(len(rt.reqs) == 1, "C13.request.one-request")
@@ -206,9 +209,12 @@ func verifC13_dial() {
 	vAssert(vEqStr(h.Get("Sec-WebSocket-Extensions"), wantExt), "C13.request.extension-offer")
 	// the caller's option struct is not modified
 	vAssert(vEqStr(opts.HTTPHeader.Get("X-Custom"), custom), "C13.request.options-not-modified")
+	// ... nor the header map it points to: the handshake headers are set on the request's own copy (what is left behind
+	// in the caller's map would be sent again by the caller's next Dial, asked for or not)
+	vAssert(len(opts.HTTPHeader) == callerKeys, "C13.request.callers-header-map-not-modified")
 	// C13.dial
 	protoOK := respProto == "" || (respProto == "chat" && nproto >= 1)
-	extOK := respExt == "" || (respExt != "x-unknown" && opts.CompressionMode != CompressionDisabled)
+	extOK := respExt == "" || (respExt != "x-unknown" && !strings.Contains(respExt, "client_max_window_bits") && opts.CompressionMode != CompressionDisabled)
 	want := vAnd(status == 101, goodAccept && protoOK && extOK)
 	if err == nil {
 		vReach("C13.dial.connected")
